@@ -247,6 +247,18 @@ func (e *Exec) querySweep(r *Replica, m *Model, height int64, full bool, atH int
 		if rng.Chance(0.15) {
 			oaArg = strings.ToUpper(oa)
 		}
+		if len(wantNames) > 0 && rng.Chance(0.3) {
+			// the writers of a topic that cannot exist (the empty name): nothing, whatever the owner's other topics hold
+			q := n.Query(qWriters, &aoltypes.QueryWritersRequest{OwnerAddress: oa, TopicName: "", Pagination: &query.PageRequest{Limit: 1000, CountTotal: true}}, height)
+			if e.qpanic(q, "Writers") {
+				return
+			}
+			var wr aoltypes.QueryWritersResponse
+			if q.OK() && wr.Unmarshal(q.Value) == nil && (len(wr.WriterAddresses) > 0 || (wr.Pagination != nil && wr.Pagination.Total > 0)) {
+				e.viol("C13", "listing.writers.of_no_topic", hex.EncodeToString([]byte(o)), "replica %d height %d: Writers(%s, \"\") lists %d writers (total %v) of a topic that does not exist", r.ID, atH, oa, len(wr.WriterAddresses), wr.Pagination)
+				return
+			}
+		}
 		fetchTopics := func(pr *query.PageRequest) ([]string, *query.PageResponse, *QRes) {
 			q := n.Query(qTopics, &aoltypes.QueryTopicsRequest{OwnerAddress: oaArg, Pagination: pr}, height)
 			var resp aoltypes.QueryTopicsResponse
